@@ -6,7 +6,7 @@ from harness.props import common
 def run(ctx):
     ctx.rule = ("generated nests (depth <= 4) of do/catch/finally blocks inside functions and loops with user errors of every data kind and runtime errors injected at varying statement positions, handlers and finally parts that themselves raise or return; in-program event log; non-trivial = >= 2 nested blocks with a raise site below a handler or finally; each program is run on the implementation, on a reference interpreter written from the language rules "
                 "(value + printed trace must match) and on the Lean model evaluator")
-    progcheck.run_profiles(ctx, ["errors", "mixed"], 700 if ctx.thorough else 130)
+    progcheck.run_profiles(ctx, ["errors", "mixed"], 3000 if ctx.thorough else 500)
     common.replay_known(ctx)
 
 
